@@ -302,6 +302,26 @@ def sample(c):
     return d
 
 
+def _fx(target, fmt, l_ds=2047, l_log=16383, environ=(), argv=(b"prog", b"arg"), path=b"/bin/prog"):
+    return {"target": target, "fmt": fmt, "l_ds": l_ds, "l_log": l_log, "environ": list(environ) + [b"X=1"], "argv": list(argv) if argv is not None else None,
+            "path": path, "steer": "fixed"}
+
+
+# saved regression cases (run first, outside Hypothesis): the shrunk inputs of the defects this check found / must keep finding
+FIXED = [
+    _fx("message", b"%{snoopy_literal:" + b"A" * 150 + b"}"),                                   # tag of 100 bytes or more
+    _fx("message", b"L" * 300 + b"%{noop}tail", l_ds=255),                                        # literal longer than L_ds in front of a tag
+    _fx("message", b"<%{env:V}>", l_ds=255, environ=[b"V=" + b"v" * 256]),                        # data source output L_ds+1
+    _fx("message", b"%{env:V}", l_ds=1000, l_log=255, environ=[b"V=" + b"v" * 255]),              # exactly L_log
+    _fx("message", b"A%{env:V}Z", l_ds=1000, l_log=300, environ=[b"V=" + b"v" * 298]),            # pieces summing to exactly L_log
+    _fx("message", b"x" * 256, l_log=255),                                                        # L_log+1
+    _fx("message", b"A%{env:V}Z", l_ds=255, l_log=1000, environ=[b"V=" + b"v" * 2000]),           # raw output beyond L_log, cut output fits
+    _fx("message", b"%{snoopy_literal:abc}|%{noop}|%{}"),                                         # stale buffer / empty name
+    _fx("path", b"p%{snoopy_literal:X}"),                                                         # path template, two calls
+    _fx("ident", b"id-%{env:V}", environ=[b"V=" + b"i" * 200]),
+]
+
+
 def main():
     global VERSION
     ctx = Ctx(PID, "exploration", RULE)
@@ -313,7 +333,7 @@ def main():
                        "a truncated data-source output may be any prefix with length in [L_ds-8, L_ds]",
                        "config lines longer than 1022 bytes are outside the domain (C02)"]
     nw, per = (4, 1300) if ctx.quick else (16, 9500)
-    pbt.run(ctx, {"ts-asan": b}, strategy, evaluate, classify, nw, per, sample=sample)
+    pbt.run(ctx, {"ts-asan": b}, strategy, evaluate, classify, nw, per, sample=sample, fixed_cases=FIXED)
     ctx.finish()
 
 
